@@ -42,6 +42,15 @@ def T_del(key='o3', **kw):
     return dict(op='delete', key=key, **kw)
 
 
+def BD(tier):
+    """deviation budgets per class"""
+    if tier == 'quick':
+        return dict(PLAIN={'sched': 1}, PLAIN2={'sched': 2}, FAULT={'sched': 1, 'env': 1}, FAULT2={'sched': 0, 'env': 2},
+                    CANCEL={'inject': 1, 'sched': 1}, CANCELFAULT={'inject': 1, 'env': 1, 'sched': 0})
+    return dict(PLAIN={'sched': 2}, PLAIN2={'sched': 3}, FAULT={'sched': 2, 'env': 1}, FAULT2={'sched': 1, 'env': 2},
+                CANCEL={'inject': 1, 'sched': 2}, CANCELFAULT={'inject': 1, 'env': 1, 'sched': 1})
+
+
 def job(name, s, bound, want, **kw):
     j = {'name': name, 'scn': s, 'bound': bound, 'want': want, 'forced_cost': 1}
     j.update(kw)
@@ -131,14 +140,11 @@ def jobs_C01(tier, seed):
         for conc, chunks in ((2, 1), (3, 2)):
             s = scn(base_transfers()[name], cfg(max_request_concurrency=conc, max_in_memory_upload_chunks=chunks),
                     seed=seed)
-            jobs.append(job(f'sched {name} conc={conc} chunks={chunks}', s, 1, want))
-    if tier == 'thorough':
-        for name in ('up-mp-nonseekable', 'up-mp-path', 'copy-mp'):
-            s = scn(base_transfers()[name], cfg(max_request_concurrency=2, max_in_memory_upload_chunks=1), seed=seed)
-            jobs.append(job(f'sched k2 {name}', s, 2, want, max_execs=400000))
-            s = scn(base_transfers()[name], cfg(max_request_concurrency=2), seed=seed,
-                    faults={'sites': ['body:retry']})
-            jobs.append(job(f'sched+retry {name}', s, 2, want, max_execs=400000))
+            jobs.append(job(f'sched {name} conc={conc} chunks={chunks}', s, BD(tier)['PLAIN2' if conc == 2 else 'PLAIN'], want, max_execs=400000))
+    for name in ('up-mp-nonseekable', 'up-mp-path', 'copy-mp'):
+        s = scn(base_transfers()[name], cfg(max_request_concurrency=2), seed=seed,
+                faults={'sites': ['body:retry']})
+        jobs.append(job(f'sched+retry {name}', s, BD(tier)['FAULT'], want, max_execs=400000))
     return jobs
 
 
@@ -175,11 +181,10 @@ def jobs_C02(tier, seed, want='C02', dsts=('path', 'seekable', 'nonseekable', 's
         for conc, win in ((2, 1), (2, 2), (3, 2)):
             s = scn([T_dl(dst, 'o5')], cfg(max_request_concurrency=conc, max_in_memory_download_chunks=win,
                                           max_io_queue_size=2), seed=seed)
-            jobs.append(job(f'sched dl {dst} conc={conc} win={win}', s, 1, want))
-        if tier == 'thorough':
-            s = scn([T_dl(dst, 'o5')], cfg(max_request_concurrency=2, max_in_memory_download_chunks=2), seed=seed,
-                    faults={'sites': ['stream:retryable']})
-            jobs.append(job(f'sched+fault dl {dst}', s, 2, want, max_execs=400000))
+            jobs.append(job(f'sched dl {dst} conc={conc} win={win}', s, BD(tier)['PLAIN2' if conc == 2 else 'PLAIN'], want, max_execs=400000))
+        s = scn([T_dl(dst, 'o5')], cfg(max_request_concurrency=2, max_in_memory_download_chunks=2), seed=seed,
+                faults={'sites': ['stream:retryable']})
+        jobs.append(job(f'sched+fault dl {dst}', s, BD(tier)['FAULT'], want, max_execs=400000))
     return jobs
 
 
@@ -214,8 +219,8 @@ def jobs_faults(tier, seed, want, names=None, sched=True, pairs=True, monitor_fs
                     faults={'sites': ['s3:', 'stream:retryable', 'stream:fatal', 'fs:write', 'fs:rename', 'fs:close', 'src:read', 'sink:write']})
             if extra:
                 s.update(extra)
-            jobs.append(job(f'sched fault {name}', s, 1 if tier == 'quick' else 2, want,
-                            monitor_fs=monitor_fs, max_execs=60000 if tier == 'quick' else 600000))
+            jobs.append(job(f'sched fault {name}', s, BD(tier)['FAULT'], want,
+                            monitor_fs=monitor_fs, max_execs=100000 if tier == 'quick' else 1000000))
     return jobs
 
 
@@ -249,23 +254,23 @@ def jobs_C04(tier, seed):
     for a, b in (('up-mp-nonseekable', 'dl-ranged-nonseekable'), ('dl-ranged-path', 'copy-mp'),
                  ('up-single-path', 'delete')):
         s = scn(copy.deepcopy(bt[a]) + copy.deepcopy(bt[b]), cfg(**ones), seed=seed)
-        jobs.append(job(f'pair {a}+{b} all-ones', s, 1, want, max_execs=100000))
+        jobs.append(job(f'pair {a}+{b} all-ones', s, BD(tier)['PLAIN'], want, max_execs=100000))
     # (ii) all-ones and all-twos at k<=1 (quick) / 2 (thorough)
     for name in core:
         for lim in (ones, {k: 2 for k in ones}):
             s = scn(copy.deepcopy(bt[name]), cfg(**lim), seed=seed)
             jobs.append(job(f'k {name} {"ones" if lim is ones else "twos"}', s,
-                            1 if tier == 'quick' else 2, want, max_execs=300000))
+                            BD(tier)['PLAIN2'], want, max_execs=300000))
     # (iii) single fault x k<=1
     for name in ('up-mp-nonseekable', 'dl-ranged-nonseekable', 'dl-ranged-path', 'copy-mp'):
         s = scn(copy.deepcopy(bt[name]), cfg(**ones), seed=seed,
                 faults={'sites': ['s3:', 'stream:retryable', 'stream:fatal', 'fs:write', 'fs:rename', 'src:read', 'sink:write']})
-        jobs.append(job(f'fault {name} ones', s, 1 if tier == 'quick' else 2, want, max_execs=300000))
+        jobs.append(job(f'fault {name} ones', s, BD(tier)['FAULT'], want, max_execs=300000))
     # (iv) cancel / shutdown(cancel) at every point
     for name in core:
         for inj in ([{'kind': 'cancel', 'target': 0}], [{'kind': 'shutdown_cancel', 'msg': 'bye'}]):
             s = scn(copy.deepcopy(bt[name]), cfg(**ones), seed=seed, inject=inj)
-            jobs.append(job(f'{inj[0]["kind"]} {name}', s, 1 if tier == 'quick' else 2, want, max_execs=300000))
+            jobs.append(job(f'{inj[0]["kind"]} {name}', s, BD(tier)['CANCEL'], want, max_execs=300000))
     # (v) re-entrant subscribers on every outcome path
     acts_done = ['done', 'meta', 'set_exception', 'cancel', 'result']
     acts_q = ['done', 'meta', 'cancel']
@@ -281,7 +286,8 @@ def jobs_C04(tier, seed):
                     if path == 'cancel':
                         kw['inject'] = [{'kind': 'cancel', 'target': 0}]
                     s = scn(tr, cfg(**ones), seed=seed, **kw)
-                    jobs.append(job(f'reenter {name} {phase}:{act} {path}', s, 1, want, max_execs=100000))
+                    b = {'success': {'sched': 1}, 'fault': {'sched': 1, 'env': 1}, 'cancel': {'inject': 1, 'sched': 1}}[path]
+                    jobs.append(job(f'reenter {name} {phase}:{act} {path}', s, b, want, max_execs=100000))
     return jobs
 
 
@@ -294,10 +300,10 @@ def jobs_C05(tier, seed):
         for conc in (2, 3):
             s = scn(copy.deepcopy(bt[name]), cfg(max_request_concurrency=conc), seed=seed,
                     inject=[{'kind': 'cancel', 'target': 0}])
-            jobs.append(job(f'cancel {name} conc={conc}', s, 1 if tier == 'quick' else 2, want, max_execs=400000))
+            jobs.append(job(f'cancel {name} conc={conc}', s, BD(tier)['CANCEL'], want, max_execs=400000))
         s = scn(copy.deepcopy(bt[name]), cfg(max_request_concurrency=2), seed=seed,
                 inject=[{'kind': 'cancel', 'target': 0}], faults={'sites': ['s3:']})
-        jobs.append(job(f'cancel+fault {name}', s, 2, want, max_execs=60000 if tier == 'quick' else 600000))
+        jobs.append(job(f'cancel+fault {name}', s, BD(tier)['CANCELFAULT'], want, max_execs=600000))
     return jobs
 
 
@@ -316,11 +322,11 @@ def jobs_C06(tier, seed):
             jobs.append(job(f'seq fault x2 {name} pre={pre}', s, 2, want, monitor_fs=True, max_execs=100000))
             s = scn(copy.deepcopy(tr), cfg(max_request_concurrency=2), seed=seed,
                     faults={'sites': ['s3:', 'stream:retryable', 'stream:fatal', 'fs:']})
-            jobs.append(job(f'sched fault {name} pre={pre}', s, 1 if tier == 'quick' else 2, want, monitor_fs=True,
+            jobs.append(job(f'sched fault {name} pre={pre}', s, BD(tier)['FAULT'], want, monitor_fs=True,
                             max_execs=400000))
             for inj in ([{'kind': 'cancel', 'target': 0}], [{'kind': 'shutdown_cancel', 'msg': 'x'}]):
                 s = scn(copy.deepcopy(tr), cfg(max_request_concurrency=2), seed=seed, inject=inj)
-                jobs.append(job(f'{inj[0]["kind"]} {name} pre={pre}', s, 1 if tier == 'quick' else 2, want,
+                jobs.append(job(f'{inj[0]["kind"]} {name} pre={pre}', s, BD(tier)['CANCEL'], want,
                                 monitor_fs=True, max_execs=400000))
     return jobs
 
@@ -331,9 +337,10 @@ def jobs_C07(tier, seed):
     bt = base_transfers()
     core = ['up-mp-nonseekable', 'up-single-path', 'dl-ranged-path', 'dl-ranged-nonseekable',
             'dl-single-path', 'copy-mp', 'copy-single', 'delete']
-    k = 1 if tier == 'quick' else 2
+    deep = ['up-mp-nonseekable', 'dl-ranged-path', 'copy-mp', 'up-single-path'] if tier == 'quick' else core
     for name in core:
         base = dict(fields=True, field_reads=False)
+        k = BD(tier)['CANCEL'] if name in deep else {'inject': 1, 'sched': 0}
         for inj in ([{'kind': 'cancel', 'target': 0}],
                     [{'kind': 'shutdown_cancel', 'msg': 'bye'}],
                     [{'kind': 'ctrlc'}]):
@@ -343,11 +350,13 @@ def jobs_C07(tier, seed):
         jobs.append(job(f'ctrlc-at-shutdown {name}', s, k, want, max_execs=500000))
         for script in ('with_raise_kbd', 'with_raise_value', 'with_raise_empty'):
             s = scn(copy.deepcopy(bt[name]), seed=seed, script=script, **base)
-            jobs.append(job(f'{script} {name}', s, k, want, max_execs=500000))
+            jobs.append(job(f'{script} {name}', s, BD(tier)['PLAIN'] if name in deep else {'sched': 0}, want,
+                            forced_cost=1 if name in deep else 0, max_execs=50000 if tier == 'quick' else 500000))
     # two transfers, one cancelled
     s = scn(copy.deepcopy(bt['up-mp-nonseekable']) + copy.deepcopy(bt['dl-ranged-path']), seed=seed,
             inject=[{'kind': 'shutdown_cancel', 'msg': 'stop'}], fields=True, field_reads=False)
-    jobs.append(job('shutdown_cancel two transfers', s, 1, want, max_execs=300000))
+    jobs.append(job('shutdown_cancel two transfers', s, {'inject': 1, 'sched': 0} if tier == 'quick' else BD(tier)['CANCEL'],
+                    want, max_execs=300000))
     return jobs
 
 
@@ -357,14 +366,14 @@ def jobs_C08(tier, seed):
     bt = base_transfers()
     core = list(bt)
     two = [{'raise_done': True}, {}]
-    k = 1 if tier == 'quick' else 2
+    k = BD(tier)['FAULT']
     for name in core:
         tr = copy.deepcopy(bt[name])
         tr[0]['subs'] = copy.deepcopy(two)
         s = scn(tr, seed=seed, fields=True, field_reads=False)
-        jobs.append(job(f'plain {name}', s, 1, want, max_execs=300000))
+        jobs.append(job(f'plain {name}', s, BD(tier)['PLAIN'], want, max_execs=300000))
         s = scn(copy.deepcopy(tr), seed=seed, inject=[{'kind': 'cancel', 'target': 0}], fields=True, field_reads=False)
-        jobs.append(job(f'cancel {name}', s, k if name in QUICK_CORE else 1, want, max_execs=500000))
+        jobs.append(job(f'cancel {name}', s, BD(tier)['CANCEL'], want, max_execs=500000))
         s = inline(scn(copy.deepcopy(tr), seed=seed, faults={'sites': FAULT_SITES_ALL}))
         jobs.append(job(f'seq fault {name}', s, 1, want))
         if tr[0]['op'] in ('download', 'copy'):
@@ -386,10 +395,12 @@ def jobs_C09(tier, seed):
     for rcc in ('when_required', 'when_supported'):
         for src, size in (('path', 5), ('seekable', 5), ('nonseekable', 5), ('path', 3), ('nonseekable', 3), ('seekable', 3)):
             for brs in (None, 1, 2):
-                s = inline(scn([T_up(src, size, start=1 if src == 'seekable' else 0)], seed=seed, rcc=rcc,
-                               body_read_size=brs, faults={'sites': ['body:retry'], 'max_body_retries': 2}))
-                jobs.append(job(f'upload rewinds {src} {size} {rcc} read={brs}', s, 2 if tier == 'quick' else 3, want,
-                                max_execs=200000))
+                for thr in (None, 2):
+                    s = inline(scn([T_up(src, size, start=1 if src == 'seekable' else 0)], seed=seed, rcc=rcc,
+                                   body_read_size=brs, faults={'sites': ['body:retry'], 'max_body_retries': 2},
+                                   progress_threshold=thr))
+                    jobs.append(job(f'upload rewinds {src} {size} {rcc} read={brs} thr={thr}', s,
+                                    2 if tier == 'quick' else 3, want, max_execs=200000))
     for dst in ('path', 'seekable', 'nonseekable'):
         for key in ('o5', 'o3', 'o7'):
             s = inline(scn([T_dl(dst, key)], cfg(num_download_attempts=3, multipart_chunksize=3), seed=seed,
@@ -411,7 +422,7 @@ def jobs_C09(tier, seed):
     for name in ('up-mp-nonseekable', 'dl-ranged-path', 'copy-mp'):
         s = scn(copy.deepcopy(base_transfers()[name]), cfg(max_request_concurrency=2), seed=seed,
                 faults={'sites': ['body:retry', 'stream:retryable']})
-        jobs.append(job(f'sched {name}', s, 1 if tier == 'quick' else 2, want, max_execs=400000))
+        jobs.append(job(f'sched {name}', s, BD(tier)['FAULT'], want, max_execs=400000))
     return jobs
 
 
@@ -437,7 +448,7 @@ def jobs_C10(tier, seed):
         for n, trs in ((3, mixed_transfers(3)), (3, [T_dl('nonseekable', 'o5'), T_dl('nonseekable', 'o6'), T_dl('path', 'o4')]),
                        (2, [T_up('nonseekable', 6), T_up('seekable', 5)])):
             s = scn(copy.deepcopy(trs), cfg(**a), seed=seed)
-            jobs.append(job(f'assign{i} mix{n}:{[t["op"] for t in trs]}', s, 1 if tier == 'quick' else 2, want,
+            jobs.append(job(f'assign{i} mix{n}:{[t["op"] for t in trs]}', s, BD(tier)['PLAIN'], want,
                             max_execs=30000 if tier == 'quick' else 500000))
     return jobs
 
@@ -445,7 +456,7 @@ def jobs_C10(tier, seed):
 def jobs_C11(tier, seed):
     want = 'C11'
     jobs = []
-    k = 1 if tier == 'quick' else 2
+    k = BD(tier)['PLAIN']
     for chunks in (1, 2):
         for subc in (1, 2):
             for trs in ([T_up('nonseekable', 7)], [T_up('seekable', 7)], [T_up('nonseekable', 6), T_up('nonseekable', 5)]):
@@ -469,16 +480,16 @@ def jobs_C12(tier, seed):
     bt = base_transfers()
     for name in ('up-mp-nonseekable', 'dl-ranged-nonseekable', 'dl-single-nonseekable', 'up-mp-seekable'):
         s = scn(copy.deepcopy(bt[name]), cfg(max_request_concurrency=2), seed=seed)
-        jobs.append(job(f'e2e {name}', s, 1, want, max_execs=100000))
+        jobs.append(job(f'e2e {name}', s, BD(tier)['PLAIN'], want, max_execs=100000))
         s = scn(copy.deepcopy(bt[name]), cfg(max_request_concurrency=2), seed=seed,
                 faults={'sites': ['s3:', 'stream:fatal', 'stream:retryable', 'src:read', 'sink:write']})
-        jobs.append(job(f'e2e fault {name}', s, 1, want, max_execs=100000))
+        jobs.append(job(f'e2e fault {name}', s, BD(tier)['FAULT'], want, max_execs=100000))
         s = scn(copy.deepcopy(bt[name]), cfg(max_request_concurrency=2), seed=seed,
                 inject=[{'kind': 'cancel', 'target': 0}])
-        jobs.append(job(f'e2e cancel {name}', s, 1, want, max_execs=100000))
+        jobs.append(job(f'e2e cancel {name}', s, BD(tier)['CANCEL'], want, max_execs=100000))
     s = scn([T_dl('nonseekable', 'o5'), T_dl('nonseekable', 'o6')],
             cfg(max_request_concurrency=2, max_submission_concurrency=2, max_in_memory_download_chunks=1), seed=seed)
-    jobs.append(job('e2e two nonseekable downloads window=1', s, 1 if tier == 'quick' else 2, want, max_execs=400000))
+    jobs.append(job('e2e two nonseekable downloads window=1', s, BD(tier)['PLAIN'], want, max_execs=400000))
     return jobs
 
 
@@ -490,7 +501,6 @@ def jobs_C16(tier, seed):
 def jobs_C18(tier, seed):
     want = 'C18'
     jobs = []
-    k = 1 if tier == 'quick' else 2
     combos = [
         ([T_up('nonseekable', 5), T_dl('path', 'o5')], 0),
         ([T_dl('nonseekable', 'o5'), T_cp('o4')], 0),
@@ -499,31 +509,34 @@ def jobs_C18(tier, seed):
     ]
     C = cfg(max_request_concurrency=2, max_submission_concurrency=2, max_request_queue_size=2,
             max_submission_queue_size=2, max_io_queue_size=2)
-    for trs, victim in combos:
-        vkey = None
-        for script in ('wait', 'shutdown', 'with'):
+    q = tier == 'quick'
+    for ci, (trs, victim) in enumerate(combos):
+        for script in ('shutdown', 'wait', 'with'):
+            deep = (script == 'shutdown' and (not q or ci in (0, 3)))
+            fb = BD(tier)['FAULT'] if deep else {'env': 1, 'sched': 0}
+            cb = BD(tier)['CANCEL'] if deep else {'inject': 1, 'sched': 0}
             # victim fails: faults restricted to the victim's key
             s = scn(copy.deepcopy(trs), dict(C), seed=seed, script=script, victims=[victim],
                     faults={'sites': ['s3:', 'stream:fatal', 'fs:write', 'src:read', 'sink:write'], 'only_key': victim})
-            jobs.append(job(f'fail {script} {[t["op"] for t in trs]} victim={victim}', s, k, want,
-                            max_execs=60000 if tier == 'quick' else 600000))
+            jobs.append(job(f'fail {script} {[t["op"] for t in trs]} victim={victim}', s, fb, want,
+                            max_execs=100000 if q else 1000000))
             s = scn(copy.deepcopy(trs), dict(C), seed=seed, script=script, victims=[victim],
                     inject=[{'kind': 'cancel', 'target': victim}])
-            jobs.append(job(f'cancel {script} {[t["op"] for t in trs]} victim={victim}', s, k, want,
-                            max_execs=60000 if tier == 'quick' else 600000))
+            jobs.append(job(f'cancel {script} {[t["op"] for t in trs]} victim={victim}', s, cb, want,
+                            max_execs=100000 if q else 1000000))
         # then a fresh transfer
         trs3 = copy.deepcopy(trs) + [T_up('path', 3)]
         s = scn(trs3, dict(C), seed=seed, script='fresh', victims=[victim],
                 faults={'sites': ['s3:', 'stream:fatal'], 'only_key': victim})
-        jobs.append(job(f'fresh after fail {[t["op"] for t in trs]}', s, 1, want, max_execs=60000))
+        jobs.append(job(f'fresh after fail {[t["op"] for t in trs]}', s, {'env': 1, 'sched': 0} if q else BD(tier)['FAULT'], want, max_execs=100000))
         s = scn(copy.deepcopy(trs3), dict(C), seed=seed, script='fresh', victims=[victim],
                 inject=[{'kind': 'cancel', 'target': victim}])
-        jobs.append(job(f'fresh after cancel {[t["op"] for t in trs]}', s, 1, want, max_execs=60000))
+        jobs.append(job(f'fresh after cancel {[t["op"] for t in trs]}', s, {'inject': 1, 'sched': 0} if q else BD(tier)['CANCEL'], want, max_execs=100000))
     if tier == 'thorough':
         trs = [T_up('nonseekable', 5), T_dl('nonseekable', 'o5'), T_cp('o4')]
         s = scn(trs, dict(C), seed=seed, script='shutdown', victims=[0, 1],
                 inject=[{'kind': 'cancel', 'target': 0}, {'kind': 'cancel', 'target': 1}])
-        jobs.append(job('three transfers two cancelled', s, 2, want, max_execs=600000))
+        jobs.append(job('three transfers two cancelled', s, {'inject': 2, 'sched': 1}, want, max_execs=600000))
     return jobs
 
 
